@@ -304,6 +304,13 @@ impl<'a> StagesBuilder<'a> {
         let new_reads = new_reads.into_iter();
         let new_writes = new_writes.into_iter();
 
+        // Dependencies placed in front of the barrier are already satisfied
+        // by it; cross them off, otherwise they would stay pending forever
+        // and force the system into a new stage of its own.
+        for stage in 0..self.barrier {
+            self.remove_ids(stage, new_dep);
+        }
+
         (self.barrier..self.stages.len())
             .map(|stage| {
                 let conflict = Self::find_conflict(
